@@ -530,8 +530,8 @@ func c06Seq(tier string) []SeqJob {
 		mkCosts("seq/2keys/costs1,2/max3/depth6", 6, 40)
 		mk("seq/1key/setbuf2/depth8", []int{1}, 2, 8, 40)
 		mk("seq/2keys/setbuf2/depth6", []int{1, 257}, 2, 6, 40)
-		mk("seq/2keys/setbuf8/depth6", []int{1, 257}, 8, 6, 40)
-		mk("seq/3keys/setbuf3/depth5", []int{1, 257, 2}, 3, 5, 40)
+		mk("seq/2keys/setbuf8/depth5", []int{1, 257}, 8, 5, 40)
+		mk("seq/3keys/setbuf3/depth4", []int{1, 257, 2}, 3, 4, 40)
 	} else {
 		mk("seq/1key/setbuf2/depth11", []int{1}, 2, 11, 560)
 		mk("seq/1key/setbuf8/depth11", []int{1}, 8, 11, 560)
